@@ -1659,6 +1659,35 @@ class Interp:
     def havoc_like(self, before, after, name):
         """fresh value standing for 'the value of this leaf at the start of an arbitrary iteration'"""
         v = after if not isinstance(after, Uninit) else before
+        if isinstance(after, SelV) and isinstance(before, (Ref, SliceRef)):
+            # the back edge leaves one of several places of the same kind (`if let Some((next, rest)) = rest.split_first()
+            # { cur = next; … }`): generalise over all of them
+            leaves = []
+
+            def walk(x):
+                if isinstance(x, SelV):
+                    walk(x.a)
+                    walk(x.b)
+                else:
+                    leaves.append(x)
+            walk(after)
+            if all(type(x) is type(before) for x in leaves):
+                acc = before
+                for k_, x in enumerate(leaves):
+                    if x == before:
+                        continue
+                    h = self.havoc_like(before, x, name)
+                    if isinstance(h, tuple) and h and h[0] == 'HAVOC-UNSUPPORTED':
+                        return h
+                    acc = h
+                if isinstance(acc, SliceRef):
+                    diff_s = any(x.start != before.start for x in leaves)
+                    diff_e = any(x.end != before.end for x in leaves)
+                    if any(x.root != before.root or x.path != before.path for x in leaves):
+                        return ('HAVOC-UNSUPPORTED', after)
+                    return SliceRef(before.root, before.path, self.fresh_sym(name + '.start') if diff_s else before.start,
+                                    self.fresh_sym(name + '.end') if diff_e else before.end, before.mut)
+                return acc
         if isinstance(before, SliceRef) and isinstance(after, SliceRef):
             s = before.start if before.start == after.start else self.fresh_sym(name + '.start')
             e = before.end if before.end == after.end else self.fresh_sym(name + '.end')
